@@ -42,7 +42,7 @@ Definition sres_eqb (a b : sres) : bool :=
 Definition content_eqb (a b : content) : bool :=
   match a, b with
   | CCa x, CCa y => src_eqb x y
-  | CTls x f, CTls y g => src_eqb x y && N.eqb f g
+  | CTls x f, CTls y g => src_eqb x y && pkp_eqb f g
   | _, _ => false
   end.
 Definition entry_eqb (a b : entry) : bool := String.eqb (fst a) (fst b) && content_eqb (snd a) (snd b).
@@ -73,7 +73,7 @@ Definition model_ok (c : case) : bool :=
   | Parse _ rn pns pcl ccl o => option_eqb sres_eqb (parse_resource_name rn pns pcl ccl) o
   | Filter _ w p names parsed passed =>
       let rs := parse_resources names (proxy_ns p) (p_cluster p) (config_cluster w) in
-      all2 (fun sr o => sres_eqb sr (fst o) && String.eqb (cache_key sr (p_pkp p)) (snd o)) rs parsed
+      all2 (fun sr o => sres_eqb sr (fst o) && String.eqb (cache_key sr (p_pkp w p)) (snd o)) rs parsed
       && all2 sres_eqb (filter_authorized p (proxy_ns p) (proxy_auth w p) rs) passed
   | Scen _ w ops obs fresh keys =>
       all2 (same_set entry_eqb) (run w [] ops) obs
